@@ -20,6 +20,7 @@ import Sds.Proofs.Glue2
 import Sds.Proofs.GenEqIdx
 import Sds.Proofs.GenEqBuild
 import Sds.Proofs.GenEqLoop
+import Sds.Proofs.GenEqSpZero
 
 namespace Sds.C02
 open Sds Outcome
@@ -282,5 +283,14 @@ theorem sparse_queries_as_translated_from_source {s : Sparse} {n w : Nat} {P : L
   ⟨GenEq.sparse_get_eq_of_encodes hs m i, GenEq.sparse_rank_eq_of_encodes hs m i,
    GenEq.sparse_predecessor_eq_of_encodes hs m i, GenEq.sparse_successor_eq_of_encodes hs m i,
    GenEq.sparse_count_zeros_eq m s⟩
+
+/-! **`select_zero` as translated from the source on this run** (`Generated/FnsSpZero.lean`): `find_zero_run` (the binary
+search over ranks with `mid_pos - mid` zeros before the one of rank `mid`, then the forward scan past duplicates) and
+`select_zero` on top of it equal the model functions the theorems above are about, on every representable vector. -/
+theorem sparse_select_zero_as_translated_from_source (m : Mode) (s : Sparse) (rank : Nat)
+    (hH : s.high.data.data.size * 64 < U64) (hL : s.low.len < U64) :
+    Generated.gen_SparseVector_find_zero_run m s rank = s.findZeroRun m rank ∧
+    Generated.gen_SparseVector_select_zero m s rank = s.selectZero m rank :=
+  ⟨GenEq.sp_find_zero_run_eq m s rank hH hL, GenEq.sp_select_zero_eq m s rank hH hL⟩
 
 end Sds.C02
